@@ -143,12 +143,19 @@ def use_readers(r, t, obj, n):
     return used
 
 
-def classify(t, v, what):
+def classify(t, v, what, label=''):
     """attribute a byte difference / refusal to a recorded finding when the case has its structure"""
     if 'OverflowError' in what and c19.default_mentions_real(t):
         return 'T12-real-default-through-float'
     if sigs.has_constructed_default(t):
-        return 'T11-default-of-constructed-type'
+        # T11 as recorded: the comparison of a member with its constructed DEFAULT looks at the stored components. It
+        # raises (the route is then refused), or answers "different" for two records denoting the same value: a
+        # DEFAULT-valued member inside them set on one side and left out on the other (any route), or an absent
+        # OPTIONAL member inside them instantiated as a placeholder by an earlier read (routes with reads only).
+        # Any other difference between routes on such a type is not that finding.
+        if 'err:' in what or 'Error' in what or sigs.nested_default_in_constructed_default(t) \
+                or ('+reads' in label and sigs.optional_in_constructed_default(t)):
+            return 'T11-default-of-constructed-type'
     return None
 
 
@@ -181,11 +188,17 @@ def routes_case(rep, drv, r, t, v):
             if classify(t, v, ref[cdc]) is None:
                 rep.disagree('ENC', dict(replay, codec=cdc), repr(me[:2]), ref[cdc])
     routes = []
+    encoded = []        # (label, {'der': hex, 'cer': hex}) taken when the route is created: later read-only uses of the
+                        # same object are a route of their own ('+reads'), not part of this one
+
+    def add(label, o):
+        routes.append((label, o))
+        encoded.append((label, {'der': enc(der_encoder, o), 'cer': enc(cer_encoder, o)}))
     constructed = gen.base_of(t)[0] in CONSTRUCTED
     if constructed:
         for ed in (None, True, False):
             try:
-                routes.append(('shuffled-defaults=%s' % ed, build_shuffled(r, t, v, schema, ed)))
+                add('shuffled-defaults=%s' % ed, build_shuffled(r, t, v, schema, ed))
             except Exception as e:  # noqa
                 rep.fail('route-build-' + type(e).__name__, 'cannot build by shuffled assignment: %s' % e, replay)
     # decoded from BER variants and from the canonical encodings
@@ -202,7 +215,7 @@ def routes_case(rep, drv, r, t, v):
             if rest or not gen.val_equiv(t, gen.abstract(t, obj2), v):
                 rep.count('route-unavailable:' + label)      # a round-trip matter (C01/C02), not C04's
                 continue
-            routes.append((label, obj2))
+            add(label, obj2)
         except Exception:  # noqa
             rep.count('route-unavailable:' + label)
     # clones and objects that went through read-only uses
@@ -214,23 +227,24 @@ def routes_case(rep, drv, r, t, v):
             except Exception as e:  # noqa
                 rep.fail('clone-' + type(e).__name__, 'clone(cloneValueFlag=True) raised %s: %s' % (type(e).__name__, e),
                          dict(replay, route=label))
-    routes += extra
+    for label, o in extra:
+        add(label, o)
     for label, o in list(routes):
         if constructed and r.random() < 0.8:
             used = use_readers(r, t, o, r.randrange(1, 8))
-            routes.append((label + '+reads(%s)' % ','.join(used[:4]), o))
+            add(label + '+reads(%s)' % ','.join(used[:4]), o)
             if r.random() < 0.5:
                 try:
-                    routes.append((label + '+reads+clone', o.clone(cloneValueFlag=True)))
+                    add(label + '+reads+clone', o.clone(cloneValueFlag=True))
                 except Exception as e:  # noqa
                     rep.fail('clone-' + type(e).__name__, 'clone(cloneValueFlag=True) after read-only uses raised %s: %s'
                              % (type(e).__name__, e), dict(replay, route=label, reads=used))
-    for label, o in routes:
+    for label, got_by in encoded:
         rep.count('route=' + label.split('+')[0].split('(')[0])
-        for cdc, mod in (('der', der_encoder), ('cer', cer_encoder)):
-            got = enc(mod, o)
+        for cdc in ('der', 'cer'):
+            got = got_by[cdc]
             if got != ref[cdc]:
-                sig = classify(t, v, got + ref[cdc]) or ('bytes-differ-%s-%s' % (cdc, label.split('=')[0].split('(')[0]))
+                sig = classify(t, v, got + ref[cdc], label) or ('bytes-differ-%s-%s' % (cdc, label.split('=')[0].split('(')[0]))
                 rep.fail(sig, '%s of the same abstract value differs by route %s: %s vs canonical %s' % (
                     cdc.upper(), label, got[:160], ref[cdc][:160]), dict(replay, route=label, codec=cdc))
                 break
@@ -390,6 +404,10 @@ ROUTE_CORPUS = [
     ('(setof int)', '(of (i 5) (i -1) (i 300) (i 5))'),
     ('(set (d (i 7) (tag i c 0 int)) (r (tag i c 1 (setof (str 4)))) (o (tag e c 2 bool)))', '(seq (i 7) (of (s 6162) (s 61) (s -)) absent)'),
     ('(choice (r (tag i c 0 int)) (r (tag e c 1 (seqof (set (d (b 1) bool))))))', '(ch 1 (of (seq (b 1)) (seq (b 0))))'),
+    # a DEFAULT member whose default is the empty record: left out, set explicitly, read before encoding, cloned, decoded
+    ('(seq (r int) (d (seq absent absent) (seq (o int) (o bool))))', '(seq (i 5) (seq absent absent))'),
+    ('(set (r int) (d (seq absent) (tag e c 1 (set (o (str 4))))))', '(seq (i 5) (seq absent))'),
+    ('(seq (r int) (d (seq (i 3)) (seq (d (i 3) int))))', '(seq (i 5) (seq (i 3)))'),
 ]
 
 PAIR_CORPUS = [
